@@ -129,7 +129,12 @@ def reader_side(prog: Program, fn: FuncInfo, cls: ClassInfo, target: ast.expr) -
         cur: ast.AST = u
         par = A.parent(cur)
         hops = 0
+        derived = False
         while par is not None and hops < 6:
+            if isinstance(par, (ast.Subscript, ast.Slice, ast.BinOp)) and not isinstance(par, ast.keyword):
+                derived = True  # the value only takes part in computing something (slice bound, arithmetic): not a field sink
+            if derived and isinstance(par, (ast.keyword, ast.Call, ast.Assign, ast.AnnAssign)):
+                break
             if isinstance(par, ast.keyword) and par.arg:
                 call = A.parent(par)
                 if isinstance(call, ast.Call):
@@ -222,10 +227,26 @@ class PairResult:
 def writer_layouts(prog: Program, cls: ClassInfo, fn: FuncInfo, depth: int = 0) -> List[Tuple[str, ast.Call, FuncInfo]]:
     """(format, pack call, owning function) in emission order, following super().<method>() into the base class."""
     out: List[Tuple[int, int, Any]] = []
+    singles = []
     for c in pack_calls(fn):
         fmt = fold_fmt(prog, fn, cls, c.args[0])
         if isinstance(fmt, str):
             out.append((c.lineno, c.col_offset, (fmt, c, fn)))
+            its = struct_items(fmt)
+            st = A.enclosing_stmt(c)
+            if its is not None and len(its) == 1 and len(c.args) == 2 and isinstance(st, ast.AugAssign) and isinstance(st.op, ast.Add) and st.value is c:
+                singles.append((c, fmt, norm(st.target)))
+    # idiom: one pack per field joined with `acc += pack(<order><item>, value)` -> one virtual layout
+    if len(singles) >= 2 and len({t for _c, _f, t in singles}) == 1 and len({f[0] for _c, f, _t in singles}) == 1 and singles[0][1][0] in "<>!=":
+        order = singles[0][1][0]
+        fmt = order + "".join(f[1:] for _c, f, _t in singles)
+        virt = ast.Call(func=ast.Name(id="pack", ctx=ast.Load()), args=[ast.Constant(value=fmt)] + [c.args[1] for c, _f, _t in singles], keywords=[])
+        first = singles[0][0]
+        virt.lineno, virt.col_offset = first.lineno, first.col_offset
+        for ch in ast.walk(virt):
+            if not hasattr(ch, "_parent"):
+                ch._parent = getattr(first, "_parent", None)  # type: ignore[attr-defined]
+        out.append((first.lineno, first.col_offset - 0.5, (fmt, virt, fn)))
     if depth < 3:
         for c in A.calls_in(fn.node):
             if isinstance(c.func, ast.Attribute) and isinstance(c.func.value, ast.Call) and norm(c.func.value.func) == "super" and fn.cls is not None:
